@@ -1,6 +1,6 @@
 """C18 — MPS round trip (DESIGN §5 C18): the writer emits only what the reader accepts and loses nothing."""
 from .common import *
-from .C17 import literal_table, keyword_literals, strip_generic_args, Sx, SxLimit, SxOracle, sx_paths, sx_loop_paths, sx_calls, sx_walk, sx_strip, sx_str, failure_is_error, FailCase
+from .C17 import _FACTS, literal_table, keyword_literals, strip_generic_args, Sx, SxLimit, SxOracle, sx_paths, sx_loop_paths, sx_calls, sx_walk, sx_strip, sx_str, failure_is_error, FailCase
 
 VIEW = 'norm'
 
@@ -477,7 +477,7 @@ def rhs_rules(ctx, W):
                     n += 1
                     recs = [(lits, vals) for lits, vals, bi in fmt_records(p) if any(sx.conc(v, p) == -c for v in vals)]
                     if not recs: probs.append('constraint constant %s: no record with %s' % (c, -c))
-                    elif not any(sx_calls(v, 'constr_name') for lits, vals in recs for v in vals): probs.append('constraint constant %s: the record is not under the row name of the constraint' % c)
+                    elif not any(is_name_value(v, 'constr_name', 'CONSTR_PREFIX') for lits, vals in recs for v in vals): probs.append('constraint constant %s: the record is not under the row name of the constraint' % c)
         ctx.check(n > 0 and not probs, R + '/' + what, 'T-BRANCHFX', b.name,
                   ('RHS entries are not the negated constants: %s' if what == 'negated' else 'a non-zero constant is left out of the RHS section: %s') % '; '.join(sorted(set(probs))[:3]), b.site())
 
@@ -514,7 +514,7 @@ def bounds_rules(ctx, W):
                     recs = []
                     for lits, vals, bi in fmt_records(p):
                         kws = shown_keywords([(lits, vals, bi)], r'^[ \t]+([A-Z]{2})[ \t]'); nums = [x for x in (sx.conc(v, p) for v in vals) if isinstance(x, float)]
-                        if kws or nums: recs.append((kws[0] if kws else None, nums[0] if nums else None, any(sx_calls(v, 'dvar_name') for v in vals)))
+                        if kws or nums: recs.append((kws[0] if kws else None, nums[0] if nums else None, any(is_name_value(v, 'dvar_name', 'VAR_PREFIX') for v in vals)))
                     if len(recs) != 2 or not all(nm for kw, x, nm in recs): count.append('%s: records %s' % (case, recs))
                     for what, val in (('upper', up_), ('lower', lo_)):
                         hit = [kw for kw, x, nm in recs if x == val]
@@ -539,21 +539,60 @@ def bounds_rules(ctx, W):
             ctx.check(res[0] >= 1 and not res[1], R + '/unknown-id-typed', 'T-ERRFLOW', b.name, 'unknown id is not reported as InvalidVariableId', b.site())
 
 
+def slice_consts(ctx, b, si):
+    """constants of a slice, those of the promoted constants it refers to included (`{VAR_PREFIX}` in a format string is one)"""
+    cs = set(si.consts)
+    for x in list(cs):
+        m = re.search(r'promoted\[(\d+)\]', x)
+        if m:
+            for nm in ('%s::promoted[%s]' % (b.name, m.group(1)), '%s::promoted[%s]' % (getattr(b, 'parent', None) or b.name, m.group(1))):
+                if nm in ctx.F.bodies: cs |= set(ctx.S.whole_body(nm, 2).consts)
+    return cs
+
+
+def generated_name(ctx, b, operand, fn, const, field):
+    """the operand is a name generated from the id: it comes from `fn(..)` or from a format of the shared prefix `const`, and no field
+    of the object other than its id flows into it"""
+    si = ctx.S.slice_operand(b, operand)
+    made = any(x.item == fn for x in si.call_objs) or (any(x.item == 'format' for x in si.call_objs) and any(const in x for x in slice_consts(ctx, b, si)))
+    others = sorted({f for a, f in si.fields if a.endswith(field[0]) and f != field[1]})
+    return made and not others
+
+
+def is_name_value(v, fn, const):
+    """a displayed value is a generated name: `fn(x)` or format!("{PREFIX}{id}") written out where it is used"""
+    if sx_calls(v, fn): return True
+    return bool(sx_calls(v, 'format')) and any(x[0] == 'const' and const in x[1] for x in sx_walk(v))
+
+
 def ids_rules(ctx, W):
     R = 'C18.ids'
     vp = ctx.F.consts.get('mps::to_mps::VAR_PREFIX'); cp = ctx.F.consts.get('mps::to_mps::CONSTR_PREFIX')
     ctx.check(bool(vp) and bool(cp) and vp[1] != cp[1], R + '/prefix-constants', 'T-CONST', 'mps::to_mps', 'shared prefixes: %s %s' % (vp, cp))
     for fn, const, field in (('dvar_name', 'VAR_PREFIX', ('v1::DecisionVariable', 'id')), ('constr_name', 'CONSTR_PREFIX', ('v1::Constraint', 'id'))):
+        # the places where a name is made: format!("{PREFIX}{id}") in the naming function or, when that helper has been inlined, where
+        # the name is used.  Each is the shared prefix + the id and nothing else (no literal piece, no other field of the object)
+        sites = []
+        for n, wb in sorted(W.items()):
+            for c in wb.calls:
+                if c.item == 'format' and c.args:
+                    si = ctx.S.slice_operand(wb, c.args[0]); cs = slice_consts(ctx, wb, si)
+                    if any(const in x for x in cs): sites.append((wb, c, si, cs))
+        bad = []
+        for wb, c, si, cs in sites:
+            ctx.fn(wb)
+            lits = [p_ for x in cs if x.startswith('b"') or x.startswith('"') for p_ in T.decode_fmt_pieces(x) if p_.strip()]
+            others = sorted({f for a, f in si.fields if a.endswith(field[0]) and f != field[1]})
+            if not si.has_field(*field) or lits or others: bad.append('%s (line %s): literal pieces %s, other fields %s' % (wb.name.split('::')[-1], wb.site(c.bb).split(':')[-1], lits, others))
         b = W.get('mps::to_mps::' + fn)
-        if b is None: ctx.lost(R + '/' + fn, fn); continue
-        ctx.fn(b)
-        s = ctx.S.backslice(b, [0])
-        cs = [x for x in s.consts if const in x]
-        lits = [p for p in templates_of(b) if p.strip()]
-        # a function of the id only: no other field of the constraint / variable (its own name, ..) may flow into the generated name,
-        # or the reader's id recovery (all names must be <prefix><id>) is switched off for the whole file
-        others = sorted({f for a, f in s.fields if a.endswith(field[0]) and f != field[1]})
-        ctx.check(s.has_field(*field) and bool(cs) and not lits and not others, R + '/%s/prefix-plus-id' % fn, 'T-CARRY', b.name, 'name is not exactly <%s><id> (constants %s, literal pieces %s, other fields used %s)' % (const, cs, lits, others), b.site())
+        if b is not None:
+            # the naming function as a whole: a function of the id only (its other arms included)
+            ctx.fn(b)
+            s = ctx.S.backslice(b, [0])
+            others = sorted({f for a, f in s.fields if a.endswith(field[0]) and f != field[1]})
+            lits = [p for p in templates_of(b) if p.strip()]
+            if not s.has_field(*field) or lits or others: bad.append('%s: literal pieces %s, other fields %s' % (fn, lits, others))
+        ctx.check((bool(sites) or b is not None) and not bad, R + '/%s/prefix-plus-id' % fn, 'T-CARRY', 'mps::to_mps', 'a generated name is not exactly <%s><id>: %s' % (const, '; '.join(bad[:3]) or 'no place found where the name is made'), sites[0][0].site(sites[0][1].bb) if sites else '')
     # the reader's recovery uses the same constants
     for fn, const in (('convert_dvars', 'VAR_PREFIX'), ('convert_constraints', 'CONSTR_PREFIX')):
         b = ctx.free_fn(R + '/reader/%s/anchor' % fn, 'mps::convert::' + fn)
@@ -685,6 +724,7 @@ RELIES_ON = {'C17': ['C17']}
 
 
 def check(ctx):
+    _FACTS[0] = ctx.F
     W = writer_bodies(ctx)
     if len(W) < 8:
         ctx.lost('C18.writer', 'functions of mps::to_mps (found %d)' % len(W)); return
